@@ -84,8 +84,11 @@ impl<'a> Read for EnvReader<'a> {
 			// a zero-length answer would mean EOF to the caller; a short read hands out >= 1 byte
 			n = 1;
 		}
-		if avail == 0 && !buf.is_empty() {
-			self.eof_reads += 1;
+		if avail == 0 {
+			if !buf.is_empty() {
+				self.eof_reads += 1;
+			}
+			return Ok(0);
 		}
 		buf[..n].copy_from_slice(&self.data[self.pos..self.pos + n]);
 		self.pos += n;
